@@ -1,6 +1,14 @@
 pub mod checks;
+pub mod conv;
+pub mod gen;
+pub mod hostile;
 pub mod json;
+pub mod meter;
 pub mod refcodec;
 pub mod runner;
 pub mod simnet;
+pub mod supervise;
 pub mod verdict;
+
+#[global_allocator]
+static GLOBAL: meter::Meter = meter::Meter;
